@@ -19,7 +19,11 @@ RULE = ("corpus = standard-library code objects containing a with statement (20 
         "(the REAL _contexts_active_by_trickery run on every certified observation, stack taken from the certificate, "
         "exception-table walk and trim executed from inspect_frame's own source), a 'table' case (model of "
         "_parse_exception_table on the raw co_exceptiontable bytes); plus one 'live' case per program of the runtime leg "
-        "(f_lasti and logged ground truth of real frames must be observations the certified machine offers). distinct = "
+        "(f_lasti and logged ground truth of real frames must be observations the certified machine offers); plus 'bs' cases "
+        "computed by child processes under CPython 3.10 and 3.9 (harness/bs_child.py: 12 sampled / all standard-library code "
+        "objects with a with statement of that interpreter + 40 / 600 generated programs): abstract block-stack code, a "
+        "block-stack certificate checked by M_BlockStack.check_bcert in Coq, the real analyze_with_blocks result and the real "
+        "currently_exiting_context result at EVERY instruction offset, compared with M_BlockStack.exiting310 / with_info. distinct = "
         "distinct code objects; non-trivial = has a certified observation with a non-empty truth / an exit in progress / a "
         "non-empty reported context list / >= 2 table entries / a non-empty logged truth")
 CONFIG = dict(
@@ -35,11 +39,19 @@ CONFIG = dict(
     trusted_base=["M_WithMachine.v is a hand-written model of CPython 3.12's and 3.11's with/async-with bytecode semantics (validated by "
                   "the ground-truth runtime leg and by the fact that all corpus code objects are explained by it)",
                   "M_Analysis.v models _lowlevel.py's 3.11 and 3.12 branches; compared with the real functions at observation offsets",
-                  "harness/withmachine.py's translation of code objects (via dis) to abstract code"],
+                  "harness/withmachine.py's translation of code objects (via dis) to abstract code",
+                  "M_BlockStack.v: hand-written model of the pre-3.11 branch of currently_exiting_context / analyze_with_blocks and an abstract "
+                  "block-stack machine for CPython 3.9/3.10 (SETUP_* pushes, POP_BLOCK pops, any instruction may raise and unwinds to the "
+                  "innermost block; EXCEPT_HANDLER blocks abstracted away); harness/bs_child.py's translation (via dis under 3.10 / 3.9)"],
     assumptions=["the program space is sampled (generated programs + standard library); proved for all executions of each checked code object",
                  "awaitables returned by __aenter__/__aexit__ are coroutine objects (no Python-level __await__ runs inside GET_AWAITABLE)",
-                 "Coq instances for CPython 3.12.1 and 3.11.7 bytecode (version parameter of the machine and of the analysis model); 3.9/3.10 (block stack) are covered by the runtime leg only"],
-    unproved_legs=["CPython 3.9/3.10: runtime ground-truth leg only (no Coq model of the block-stack code path)",
+                 "Coq instances for CPython 3.12.1 and 3.11.7 bytecode (version parameter of the machine and of the analysis model); for 3.9/3.10 (block stack) only the "
+                 "exit-call attribution is a theorem (C01_py310_exiting_block_partial), exactness of the context list there rests on the runtime leg"],
+    unproved_legs=["CPython 3.9/3.10: the pre-3.11 branch of currently_exiting_context and analyze_with_blocks is modelled (M_BlockStack) and tied by the "
+                   "`bs` correspondence under both interpreters; proved: the block named for an exit call in progress is the block its POP_BLOCK pops on every "
+                   "execution of the block-stack machine (partial: no with-protocol machine for these versions, so exactness of the whole context list, "
+                   "the value-stack slot arithmetic of _lowlevel_cpython_310.inspect_frame and the absence of warnings are runtime ground-truth legs; "
+                   "completeness of the walk is checked per case by the oracle 'no warning on a unit the certificate marks reachable')",
                    "inspect_frame's ctypes reads are not modelled; the chain walk and slot arithmetic are (M_Analysis.blocks/slot)"],
     timeout={"quick": 1200, "thorough": 5400},
 )
